@@ -65,9 +65,12 @@ var (
 )
 
 type runner struct {
-	sum   *Summary
-	model *vd.Model
-	seen  map[[32]byte]bool
+	sum           *Summary
+	model         *vd.Model
+	seen          map[[32]byte]bool
+	withInput     int
+	withoutInput  int
+	firstMismatch time.Time
 }
 
 func (r *runner) tag(t string) { r.sum.Distribution[t]++ }
@@ -172,9 +175,33 @@ func finish(sum *Summary, start time.Time) {
 	}
 }
 
+// mismatch records a difference.  It returns true when the run should stop: after maxMismatch
+// differences *with a concrete failing input*, or — when differences are found but the search has
+// not produced a failing input yet — after a budget of further cases (the differences without a
+// failing input are kept up to maxMismatch, the search goes on).
 func (r *runner) mismatch(m Mismatch) bool {
-	r.sum.Mismatches = append(r.sum.Mismatches, m)
-	return len(r.sum.Mismatches) >= *maxMismatch
+	hasInput := strings.HasPrefix(m.Oracle, "CEX ") || m.FailingInput != ""
+	if hasInput {
+		r.withInput++
+		// put it in front so that it is reported first
+		r.sum.Mismatches = append([]Mismatch{m}, r.sum.Mismatches...)
+	} else {
+		r.withoutInput++
+		if r.withoutInput <= *maxMismatch {
+			r.sum.Mismatches = append(r.sum.Mismatches, m)
+		}
+	}
+	if r.firstMismatch.IsZero() {
+		r.firstMismatch = time.Now()
+	}
+	if r.withInput >= *maxMismatch {
+		return true
+	}
+	if r.withInput >= 1 && r.withoutInput+r.withInput >= *maxMismatch {
+		return true
+	}
+	// no failing input yet: keep searching for a while
+	return r.withoutInput >= 400 || time.Since(r.firstMismatch) > 75*time.Second
 }
 
 // replayLine dispatches a stored request line to its stream.
@@ -243,8 +270,14 @@ func (r *runner) onePolicy(id string, p *vd.Policy, forceOracle bool) bool {
 			// arch jump form (8-bit vs long)
 			if strings.Contains(goReply, " jif:eq:") && strings.Fields(goReply)[3][:7] == "jif:eq:" {
 				r.tag("archjump:long")
+				if *profile == "boundary" {
+					r.tag(fmt.Sprintf("jumpN:%d", plen-4))
+				}
 			} else {
 				r.tag("archjump:short")
+				if *profile == "boundary" {
+					r.tag(fmt.Sprintf("jumpN:%d", plen-3))
+				}
 			}
 		}
 	} else {
@@ -273,6 +306,8 @@ func (r *runner) onePolicy(id string, p *vd.Policy, forceOracle bool) bool {
 		nontrivial = ok && nconds > 0
 	case "long":
 		nontrivial = ok && plen > 255
+	case "boundary":
+		nontrivial = ok && plen >= 250 && plen <= 268
 	case "defects":
 		nontrivial = !ok || len(p.Groups) >= 2
 	default:
@@ -336,6 +371,8 @@ func (r *runner) policyStream(rng *rand.Rand) error {
 			} else {
 				r.tag("defect:none")
 			}
+		case "boundary":
+			p = vd.GenBoundary(rng)
 		default:
 			p = vd.GenValid(rng, *profile)
 		}
@@ -358,7 +395,18 @@ func (r *runner) oneBuilder(id, req, goReply string, corpus bool) bool {
 		return true
 	}
 	if goReply != modelReply {
-		return r.mismatch(Mismatch{Case: id, Request: req, Go: goReply, Model: modelReply})
+		m := Mismatch{Case: id, Request: req, Go: goReply, Model: modelReply}
+		if strings.HasPrefix(goReply, "OK ") {
+			// failing-input search: the implementation's program against the label-level meaning
+			o, err := r.model.Ask("Y" + strings.TrimPrefix(req, "B") + " " + strings.TrimPrefix(goReply, "OK "))
+			if err == nil {
+				m.Oracle = o
+				r.sum.OracleRuns++
+			}
+		} else if strings.HasPrefix(goReply, "PANIC") {
+			m.FailingInput = "the builder call sequence makes Program.Assemble panic: " + goReply
+		}
+		return r.mismatch(m)
 	}
 	return false
 }
